@@ -136,7 +136,12 @@ func verif_C02_resume() {
 // the message - which contains a command line - arrives afterwards. No octet of
 // the message may be executed as a command, the backend never reads EOF and no
 // positive reply is given for the message.
-func verif_C02_timeout() {
+func verif_C02_timeout() { verifDataTimeout("C02") }
+
+// verifDataTimeout: shared by C02 (nothing of the message is executed) and C04
+// (the replies are those of the commands that were sent, and the connection
+// is given up).
+func verifDataTimeout(prop string) {
 	mode := verifChoice(3) // 0 SMTP, 1 LMTP plain session, 2 LMTP per-recipient session
 	hello := "EHLO c\r\n"
 	if mode != 0 {
@@ -185,15 +190,23 @@ func verif_C02_timeout() {
 	verifSettle()
 	reps, wf := verifParseReplies(vc.out)
 	verifObserve("c02to", mode, at, readMode)
-	verifAssert(wf, "C02.timeout-replies-wellformed")
-	verifAssert(be.find("Mail", "bait@v") < 0, "C02.timeout-no-message-octet-executed")
+	verifAssert(wf, prop+".timeout-replies-wellformed")
+	verifAssert(be.find("Mail", "bait@v") < 0, prop+".timeout-no-message-octet-executed")
 	if readAll {
-		verifAssert(rerr != io.EOF, "C02.timeout-backend-never-reads-eof")
+		verifAssert(rerr != io.EOF, prop+".timeout-backend-never-reads-eof")
 	}
 	if wf && len(reps) > 5 {
-		verifAssert(reps[5].code/100 != 2, "C02.timeout-no-positive-reply")
+		verifAssert(reps[5].code/100 != 2, prop+".timeout-no-positive-reply")
 	}
-	verifReach("C02.timeout-end")
+	if prop == "C04" && wf {
+		// greeting, hello, MAIL, RCPT, 354, the transfer's own reply and at
+		// most a closing notice: nothing else was asked, so nothing else is
+		// answered, and the connection is closed rather than read on
+		verifAssert(len(reps) <= 7, prop+".timeout-no-reply-without-a-command")
+		verifAssert(vc.closed, prop+".timeout-connection-given-up")
+		verifAssert(be.find("Mail", "marker@v") < 0, prop+".timeout-nothing-executed-afterwards")
+	}
+	verifReach(prop + ".timeout-end")
 }
 
 // verif_C02_sentinel: the backend stops reading wherever it likes and fails
